@@ -790,3 +790,50 @@ pub(crate) fn error_handler(status_code: StatusCode) -> Response {
 
     Response::new(status_code, body.as_bytes())
 }
+
+/// Verification hook: the parts `run` hands to the connection handler for every accepted connection.
+#[cfg(humphrey_verif)]
+#[allow(missing_docs)]
+pub struct VerifParts<State: Send + Sync + 'static> {
+    pub subapps: Arc<Vec<SubApp<State>>>,
+    pub default_subapp: Arc<SubApp<State>>,
+    pub error_handler: Arc<ErrorHandler>,
+    pub state: Arc<State>,
+    pub monitor: MonitorConfig,
+}
+
+#[cfg(humphrey_verif)]
+impl<State> App<State>
+where
+    State: Send + Sync + 'static,
+{
+    /// Verification hook: takes the app apart exactly as `run` does, without binding a socket.
+    pub fn verif_into_parts(self) -> VerifParts<State> {
+        VerifParts {
+            subapps: Arc::new(self.subapps),
+            default_subapp: Arc::new(self.default_subapp),
+            error_handler: Arc::new(self.error_handler),
+            state: self.state,
+            monitor: self.monitor,
+        }
+    }
+}
+
+#[cfg(humphrey_verif)]
+impl<State> VerifParts<State>
+where
+    State: Send + Sync + 'static,
+{
+    /// Verification hook: serves one connection with the app's connection handler.
+    pub async fn serve(&self, stream: Stream) {
+        client_handler(
+            stream,
+            self.subapps.clone(),
+            self.default_subapp.clone(),
+            self.error_handler.clone(),
+            self.state.clone(),
+            self.monitor.clone(),
+        )
+        .await
+    }
+}
